@@ -7,7 +7,7 @@ import ast
 from ..cfg import cfg_of
 from ..effects import is_self_attr
 from ..loader import AnalysisError, norm_text
-from .common import Context, SolveLoop, calls_in, fmt_path, parents_of, self_call_name, stmt_text
+from .common import Context, SolveLoop, calls_in, deref, fmt_path, parents_of, self_call_name, stmt_text
 
 PROP = "C12"
 EXPLANATION = (
@@ -314,7 +314,7 @@ def _setup(ctx, col):
     col.add("R12.5", "CheckpointMixin._setup_checkpointing", file, (sites[0][0].lineno if sites else fn.lineno), ok5, why5,
             text="_save_solver_config under has_full_config")
     so, sfn = ctx.ct.require(cm, "_save_solver_config")
-    wr = [c for c in calls_in(sfn) if ast.unparse(c.func) == "OmegaConf.save"]
+    wr = [c for c in calls_in(deref(sfn, sfn)) if ast.unparse(c.func) == "OmegaConf.save"]
     okw = len(wr) == 1 and len(wr[0].args) == 2 and ast.unparse(wr[0].args[0]) == "self.config" \
         and ast.unparse(wr[0].args[1]) == "self.checkpoint_dir / 'config.yaml'"
     col.add("R12.5", "CheckpointMixin._save_solver_config", file, sfn.lineno, okw,
@@ -401,7 +401,10 @@ def _enabled(ctx, col):
             text="is_checkpointing_enabled")
     # save() returns early when not enabled
     so, sfn = ctx.ct.require(cm, "save")
-    first = [s for s in sfn.body if not (isinstance(s, ast.Expr) and isinstance(s.value, ast.Constant))]
+    dsfn = deref(sfn, sfn)
+    # the first statement that is not a docstring / plain alias binding must be the enabled-guard
+    first = [s for s in dsfn.body if not (isinstance(s, ast.Expr) and isinstance(s.value, ast.Constant))
+             and not (isinstance(s, ast.Assign) and isinstance(s.value, ast.Attribute) and not calls_in(s))]
     ok2 = bool(first) and isinstance(first[0], ast.If) and isinstance(first[0].test, ast.UnaryOp) and isinstance(first[0].test.op, ast.Not) \
         and _is_enabled(first[0].test.operand) and any(isinstance(x, ast.Return) for x in first[0].body)
     col.add("R12.4", "CheckpointMixin.save", so.module.relpath, sfn.lineno, ok2,
